@@ -117,6 +117,12 @@ pub fn make_builder_cb(
                 *sid += 1;
                 b.add_thread_local(s);
             }
+            Reg::TlDisp { inner } => {
+                *sid += 1;
+                let ib = make_builder(ctx, inner, sid);
+                // registered through `RunNow for Dispatcher`
+                b.add_thread_local(ib.build());
+            }
             Reg::Batch { name, deps, ctl_read, ctl_write, times, multi, hint, inner } => {
                 let my = *sid;
                 *sid += 1;
